@@ -577,7 +577,20 @@ func TestVerifC40IncrementalEqualsFull(t *testing.T) {
 		}
 
 		// the source lives in its own directory; nothing else is created next to it
-		holder := envs[0].Scratch("holder-")
+		// NOT below TMPDIR: restic creates its temporary pack files there, which changes the mtime of
+		// an ancestor directory of the source between two backups (the ancestors are part of the root tree)
+		rd := os.Getenv("VERIF_RUNDIR")
+		if rd == "" {
+			rd, _ = os.Getwd()
+		}
+		if err := os.MkdirAll(filepath.Join(rd, "c40src"), 0o755); err != nil {
+			t.Fatal(err)
+		}
+		holder, err := os.MkdirTemp(filepath.Join(rd, "c40src"), "case-")
+		if err != nil {
+			t.Fatal(err)
+		}
+		defer os.RemoveAll(holder)
 		src := filepath.Join(holder, "src")
 		if err := os.Mkdir(src, 0o755); err != nil {
 			t.Fatal(err)
